@@ -187,6 +187,14 @@ static std::string run_tb(const Sx& c) {
   o << ")";
   o << " " << sx_vd(model->getMeans());
   o << " " << sx_d(tb._field) << " " << sx_d(tb._theta);
+  // coordinates of every sample as the Db gives them (for a DbGrid: through the grid rotation)
+  o << " (";
+  for (int idim = 0; idim < ndim; idim++) {
+    VectorDouble xs(nech);
+    for (int iech = 0; iech < nech; iech++) xs[iech] = db->getCoordinate(iech, idim);
+    o << (idim ? " " : "") << sx_vd(xs);
+  }
+  o << ")";
   o << ")";
   return o.str();
 }
@@ -508,6 +516,13 @@ static std::string run_proc(const Sx& c) {
 }
 // END PART proc 
 // BEGIN PART fft 
+// std headers are hoisted by the merge; the merged harness provides #define private/protected public before the gstlearn headers
+
+
+
+
+
+
 // std headers are hoisted by the merge; gstlearn headers are included with private/protected made public
 
 
@@ -606,7 +621,8 @@ static std::string run_fft(const Sx& c) {
     for (int i = 0; i < n; i++) { if (sv[i] == 0.) zv.push_back(i); if (su[i] != 1.) sc.push_back(i); }
     o << "(" << sx_vd(U) << " " << sx_vd(V) << " " << sx_vi(zv) << " " << sx_vi(sc) << " " << (ok ? 1 : 0) << ")";
   } else if (kind == 220) {
-    // (220 ndim (nx ny nz) covtype sill (ranges) (angles) percent alias)
+    // (220 ndim (nx ny nz) covtype sill (ranges) (angles) percent alias [(dx..) (grid angles..) (x0..) (rotation matrix rows | ())])
+    // the optional tail describes the geometry of the DbGrid (mesh, rotation, origin); the matrix is for the model side only
     int ndim = (int) c[1].i();
     std::vector<int> NXv = c[2].vi();
     VectorInt NX; for (int i = 0; i < ndim; i++) NX.push_back(NXv[i]);
@@ -617,7 +633,12 @@ static std::string run_fft(const Sx& c) {
     double percent = c[7].d();
     bool alias = c[8].b();
     defineDefaultSpace(ESpaceType::RN, ndim);
-    DbGrid* g = DbGrid::create(NX);
+    DbGrid* g = nullptr;
+    if (c.size() > 9) {
+      VectorDouble DX, GA, X0;
+      for (int i = 0; i < ndim; i++) { DX.push_back(c[9][i].d()); GA.push_back(c[10][i].d()); X0.push_back(c[11][i].d()); }
+      g = DbGrid::create(NX, DX, X0, GA);
+    } else g = DbGrid::create(NX);
     Model* model = Model::createFromParam(type, ranges[0], sill, 1., ranges, VectorDouble(), angles);
     CalcSimuFFT f(1, false, 1234);
     f.setDbout(g); f.setModel(model);
@@ -646,18 +667,38 @@ static std::string run_fft(const Sx& c) {
         if (!any) continue;
         for (int i = 0; i < nn; i++) { double ci = col[i]; if (ci == 0.) continue; for (int j = 0; j < nn; j++) cov[(size_t) i * nn + j] += ci * col[j]; }
       }
-    // model covariances per lag: true (vector increment) and along the default direction at the same distance (what _prepar evaluates)
+    // geometry of the grid as the library gives it: coordinates of every node (sample order: ix fastest)
+    std::vector<double> coords;
+    std::vector<VectorDouble> P(nn);
+    for (int i = 0; i < nn; i++) { P[i] = g->getSampleCoordinates(i); for (int k = 0; k < ndim; k++) coords.push_back(P[i][k]); }
+    auto rank = [&](int ix, int iy, int iz) { return ix + NXv[0] * (iy + (ndim >= 2 ? NXv[1] : 1) * iz); };
+    // step vectors X1[j] = node(e_j) - node(0) (what _prepar computes, CalcSimuFFT.cpp:439-453); zero when the grid has one node along j
+    std::vector<VectorDouble> X1(ndim, VectorDouble(ndim, 0.));
+    for (int j = 0; j < ndim; j++) if (NXv[j] >= 2) {
+      int r = rank(j == 0 ? 1 : 0, j == 1 ? 1 : 0, j == 2 ? 1 : 0);
+      for (int k = 0; k < ndim; k++) X1[j][k] = P[r][k] - P[0][k];
+    }
+    // model covariances per index offset: at the real-space lag coord(b) - coord(a) (true), at the lag built with the TRANSPOSED step
+    // matrix (regression form), and along the default direction at the same distance (regression: anisotropy ignored)
     int L0 = NXv[0] - 1, L1 = ndim >= 2 ? NXv[1] - 1 : 0, L2 = ndim >= 3 ? NXv[2] - 1 : 0;
-    std::vector<double> ctrue, cdist;
+    std::vector<double> ctrue, cdist, ctrans, lags;
     for (int lz = -L2; lz <= L2; lz++) for (int ly = -L1; ly <= L1; ly++) for (int lx = -L0; lx <= L0; lx++) {
-      VectorDouble d(ndim, 0.); d[0] = lx; if (ndim >= 2) d[1] = ly; if (ndim >= 3) d[2] = lz;
+      int ax = lx < 0 ? -lx : 0, ay = ly < 0 ? -ly : 0, az = lz < 0 ? -lz : 0;
+      int ra = rank(ax, ay, az), rb = rank(ax + lx, ay + ly, az + lz);
+      int l[3] = { lx, ly, lz };
+      VectorDouble d(ndim, 0.), dt(ndim, 0.);
+      double h2 = 0.;
+      for (int k = 0; k < ndim; k++) { d[k] = P[rb][k] - P[ra][k]; h2 += d[k] * d[k]; lags.push_back(d[k]); }
+      for (int i = 0; i < ndim; i++) for (int j = 0; j < ndim; j++) dt[i] += l[j] * X1[i][j];
       ctrue.push_back(model->evaluateOneGeneric(nullptr, d));
-      cdist.push_back(model->evaluateOneIncr(sqrt((double) lx * lx + (double) ly * ly + (double) lz * lz)));
+      ctrans.push_back(model->evaluateOneGeneric(nullptr, dt));
+      cdist.push_back(model->evaluateOneIncr(sqrt(h2)));
     }
     // spectrum terms clipped by _prepar (CalcSimuFFT.cpp:538-548): they show as exact zeros of the amplitude
     int nclip = 0; for (int i = 0; i < n; i++) if (cmat[i] == 0.) nclip++;
     o << "(" << sx_vi(f._dims) << " " << sx_vi(f._shift) << " " << sx_d(maxu) << " " << sx_d(maxv) << " " << (okrule ? 1 : 0)
-      << " " << sx_vd(cov) << " " << sx_vd(ctrue) << " " << sx_vd(cdist) << " " << nclip << ")";
+      << " " << sx_vd(cov) << " " << sx_vd(ctrue) << " " << sx_vd(cdist) << " " << nclip
+      << " " << sx_vd(coords) << " " << sx_vd(lags) << " " << sx_vd(ctrans) << ")";
     delete g; delete model;
     defineDefaultSpace(ESpaceType::RN, 2);
   } else if (kind == 240) {
@@ -697,7 +738,8 @@ static std::string run_fft(const Sx& c) {
     delete db; delete model;
     defineDefaultSpace(ESpaceType::RN, 2);
   } else if (kind == 271) {
-    // (271 ndim covtype ns seed (sills...) (ranges) (angles) (coor...)): the real simuSpectral for several sills, same seed;
+    // (271 ndim covtype ns seed (sills...) (ranges) (angles) (coor...) [(nx..) (dx..) (x0..) (grid angles..)]): the real simuSpectral for several
+    // sills, same seed; with the optional tail the target is the (rotated) DbGrid of that geometry, whose nodes the case lists in (coor...);
     // harvest of _omega/_gamma/_phi through SimuSpectral::simulate + compute
     int ndim = (int) c[1].i(); ECov type = fft_covtype(c[2].i()); int ns = (int) c[3].i(); int seed = (int) c[4].i();
     VectorDouble ranges; for (auto& x : c[6].l) ranges.push_back(x.d());
@@ -711,7 +753,12 @@ static std::string run_fft(const Sx& c) {
     for (auto& sx : c[5].l) {
       double sill = sx.d();
       Model* model = Model::createFromParam(type, ranges[0], sill, 1., ranges, VectorDouble(), angles);
-      Db* db = Db::createFromSamples(np, ELoadBy::COLUMN, tab, names, locs, false);
+      Db* db = nullptr;
+      if (c.size() > 9) {
+        VectorInt NX; VectorDouble DX, X0, GA;
+        for (int i = 0; i < ndim; i++) { NX.push_back((int) c[9][i].i()); DX.push_back(c[10][i].d()); X0.push_back(c[11][i].d()); GA.push_back(c[12][i].d()); }
+        db = DbGrid::create(NX, DX, X0, GA);
+      } else db = Db::createFromSamples(np, ELoadBy::COLUMN, tab, names, locs, false);
       // public entry point
       int rc = simuSpectral(nullptr, db, model, 1, seed, ns, 100, false);
       VectorDouble vals = db->getColumnByColIdx(db->getColumnNumber() - 1, false, false);
